@@ -14,11 +14,17 @@
                           (`C11_error_no_effect`), so later commands are unaffected;
    * `C11_one_reply`   — a complete well-formed command: exactly one reply, none iff it said noreply (or is `quit`,
                           which closes; the unsupported append/prepend with noreply also end in an orderly close).
-  Partial: that the reply carries the byte-exact value, and that a command consumes exactly its own bytes whatever
-  follows, are checked by the correspondence on every run (values with CR, LF, NUL, command look-alikes; pipelined
-  and truncated streams; short reads) and are being moved into theorems (request round trip).
+   * request round trip (`C11_roundtrip_get`, `_delete`, `_incr`, `_store`): parsing what `writeReq` (= Request.Write,
+     tied byte for byte by engine proto) wrote gives the SAME request back — for a store command whatever bytes the
+     value holds (CR, LF, NUL, command look-alikes: `body` is arbitrary) —, consumes EXACTLY the bytes of that
+     command and is independent of everything that follows it on the stream (`rest` is arbitrary): pipelining keeps
+     requests and replies in step.  Keys and numbers are tokens (non-empty, no space, no LF); numbers are int64.
+  Partial: the reply round trip (`Response.Read` ∘ `Response.Write`) is tied by the correspondence only (model
+  `readResp`, engine proto `rresp` lines on every third reply); that a get returns byte-exactly what the last set
+  stored is C01 through the store model plus the per-command correspondence here.
 -/
 import GoBeans.Lemmas.Proto
+import GoBeans.Lemmas.ProtoRT
 open Proto
 
 theorem C11_cut_stream (cfg : Cfg) (st : St) (inp : Bytes) (h : (readReq cfg st.led inp).res = .net) :
@@ -67,7 +73,67 @@ theorem C11_one_reply (cfg : Cfg) (st : St) (inp : Bytes) (h : (readReq cfg st.l
   obtain ⟨st1, resp, bufs, quit⟩ := pr
   exact this
 
-/-! Non-vacuity: the three situations occur. -/
+/-! ### serialise → parse = identity, exact framing, any payload, any continuation -/
+
+theorem C11_roundtrip_get (cfg : Cfg) (led : Ledger) (gets : Bool) (ks : List Bytes) (rest : Bytes)
+    (hks : ∀ k ∈ ks, Tok k) (hne : ks ≠ []) :
+    let c := if gets then ascii "gets" else ascii "get"
+    let r : Req := { cmd := c, keys := ks }
+    (readReq cfg led (writeReq r ++ rest)).res = .ok ∧ (readReq cfg led (writeReq r ++ rest)).req = r
+      ∧ (readReq cfg led (writeReq r ++ rest)).n = (writeReq r).length := by
+  intro c r
+  have hct : Tok c := by cases gets <;> exact ⟨by decide, by decide, by decide⟩
+  have h := rt_get cfg led c ks rest (by cases gets <;> decide) (by cases gets <;> decide) (by cases gets <;> decide)
+    (by intro t ht; rcases List.mem_cons.mp ht with rfl | ht; exact hct; exact hks t ht) hne
+  simp only at h
+  rw [h]; exact ⟨rfl, rfl, rfl⟩
+
+theorem C11_roundtrip_delete (cfg : Cfg) (led : Ledger) (k : Bytes) (nr : Bool) (rest : Bytes) (hk : Tok k) :
+    let r : Req := { cmd := ascii "delete", keys := [k], noreply := nr }
+    (readReq cfg led (writeReq r ++ rest)).res = .ok ∧ (readReq cfg led (writeReq r ++ rest)).req = r
+      ∧ (readReq cfg led (writeReq r ++ rest)).n = (writeReq r).length := by
+  intro r
+  have h := rt_delete cfg led k nr rest hk
+  simp only at h
+  rw [h]; exact ⟨rfl, rfl, rfl⟩
+
+theorem C11_roundtrip_incr (cfg : Cfg) (led : Ledger) (decr : Bool) (k num : Bytes) (nr : Bool) (rest : Bytes)
+    (hk : Tok k) (hn : Tok num) :
+    let c := if decr then ascii "decr" else ascii "incr"
+    let r : Req := { cmd := c, keys := [k], body := num, noreply := nr }
+    (readReq cfg led (writeReq r ++ rest)).res = .ok ∧ (readReq cfg led (writeReq r ++ rest)).req = r
+      ∧ (readReq cfg led (writeReq r ++ rest)).n = (writeReq r).length := by
+  intro c r
+  have hct : Tok c := by cases decr <;> exact ⟨by decide, by decide, by decide⟩
+  have h := rt_incr cfg led c k num nr rest (by cases decr <;> decide) (by cases decr <;> decide) (by cases decr <;> decide)
+    (by cases decr <;> decide) hct hk hn
+  simp only at h
+  rw [h]; exact ⟨rfl, rfl, rfl⟩
+
+/-- the six store verbs -/
+def storeVerbs : List Bytes := [ascii "set", ascii "add", ascii "replace", ascii "cas", ascii "append", ascii "prepend"]
+
+theorem C11_roundtrip_store (cfg : Cfg) (led : Ledger) (c k : Bytes) (flag exptime cas : Int) (body rest : Bytes) (nr : Bool)
+    (hc : c ∈ storeVerbs) (hk : Tok k) (hf : I64 flag) (he : I64 exptime) (hcas : I64 cas)
+    (hlen : body.length ≤ cfg.bodyMax) (hlen2 : body.length < 4294967296) :
+    let r : Req := { cmd := c, keys := [k], flag := flag, exptime := exptime, cas := if c == ascii "cas" then cas else 0,
+                     body := body, noreply := nr }
+    (readReq cfg led (writeReq r ++ rest)).res = .ok ∧ (readReq cfg led (writeReq r ++ rest)).req = r
+      ∧ (readReq cfg led (writeReq r ++ rest)).n = (writeReq r).length := by
+  intro r
+  have facts : isStoreCmd c = true ∧ (c == ascii "get" || c == ascii "gets") = false ∧ Tok c := by
+    simp only [storeVerbs, List.mem_cons, List.mem_nil_iff, or_false] at hc
+    rcases hc with rfl | rfl | rfl | rfl | rfl | rfl <;>
+      exact ⟨by decide, by decide, by decide, by decide, by decide⟩
+  have h := rt_store cfg led c k flag exptime cas body rest nr facts.1 facts.2.1 facts.2.2 hk hf he hcas hlen hlen2
+  simp only at h
+  rw [h]; exact ⟨rfl, rfl, rfl⟩
+
+/-! Non-vacuity: the three situations occur; a value made of a terminator and a command look-alike travels unchanged
+    and the pipelined command behind it is left untouched. -/
+def exSet : Req := { cmd := ascii "set", keys := [ascii "k"], flag := 5, exptime := 0, body := ascii "\r\nget x\r\n" }
+example : (readReq {} {} (writeReq exSet ++ ascii "get k\r\n")).req.body = ascii "\r\nget x\r\n" := by decide +kernel
+example : (readReq {} {} (writeReq exSet ++ ascii "get k\r\n")).n = 24 ∧ (writeReq exSet).length = 24 := by decide +kernel
 example : (readReq {} {} (ascii "set k 0 0 5\r\nab")).res = .net := by decide +kernel
 example : (readReq {} {} (ascii "set k 0 0\r\n")).res = .err .invalidCmd := by decide +kernel
 example : (readReq {} {} (ascii "set k 0 0 2\r\nabcd\r\n")).res = .err .badChunk := by decide +kernel
